@@ -179,3 +179,8 @@ def obligations(tier, seed):
             o.oid = "C04:%s:single:%s" % (pos, lk)
             obs.append(o)
     return obs
+
+
+def gates(tier, seed):
+    from .gates import assembler_gates
+    return assembler_gates(tier, seed)
